@@ -320,8 +320,11 @@ def oracle(case, info, run, point, action, cross):
         trunc = sig_xdev and "copy_create_dst" in run["trace"] and data != new
         if not trunc:  # truncation already reported above
             bad.append((None, "front matter tail lost (exit %d)" % rc))
-    if rc in (1, 2) and run["ntemps"] > 0 and "create_temp" in run["trace"] and not case.get("fm", 0):
-        bad.append(("temp-leak", "temp file left in TMPDIR after exit %d" % rc))
+    # protocol hygiene (not part of the property statement): no temp file is left behind at an exit, unless the
+    # injected fault sits in the finishing / clean-up phase itself
+    finish_phase = point in HOOKS[HOOKS.index("finish_before_close"):] or run.get("unlink_forced")
+    if rc in (0, 1, 2) and run["ntemps"] > 0 and not finish_phase and not case.get("fm", 0):
+        bad.append((None, "temp file left in TMPDIR after exit %d" % rc))
     return bad
 
 
@@ -368,6 +371,8 @@ def replay(rp):
         run = run_fault(root, shmroot, case, rp.get("cross", False), fault, rp.get("strace"))
         if rp.get("strace") and any(s.startswith("renameat") for s in rp["strace"]):
             run["rename_forced"] = True
+        if rp.get("strace") and any(s.startswith("unlinkat") for s in rp["strace"]):
+            run["unlink_forced"] = True
         pt, act = (fault.split(":") + [None])[:2] if fault else (None, None)
         return not oracle(case, info, run, pt, act, rp.get("cross", False))
     finally:
@@ -420,6 +425,8 @@ def run(chk):
             r = run_fault(root, shmroot, cases[ci], cross, fault, inj)
             if inj and any(s.startswith("renameat") for s in inj):
                 r["rename_forced"] = True
+            if inj and any(s.startswith("unlinkat") for s in inj):
+                r["unlink_forced"] = True
             return r
         t0 = time.time()
         with ThreadPoolExecutor(vlib.NCPU) as ex:
